@@ -45,6 +45,7 @@ type Frame struct {
 	loopEv    map[*ssa.BasicBlock]int // number of events when the loop header was first reached
 	loopSnap  map[*ssa.BasicBlock]*headSnap
 	fold      *foldCheck
+	pure      bool
 	pre       *preSnap // pre-state snapshot for contract checking (root frame or checked-inline)
 	depth     int
 }
